@@ -264,6 +264,24 @@ theorem Accessory.skel_setPrimary (a : Accessory V P) (typ : String) : (a.setPri
   simp only [Accessory.skel, Accessory.setPrimary, Accessory.objList, List.flatMap_map]
   rfl
 
+theorem Accessory.skel_addLinked (a : Accessory V P) (svc other : Nat) : (a.addLinked svc other).skel = a.skel := by
+  have hf : ∀ sv : Service V P,
+      Service.objList (if sv.obj = svc then
+        if sv.linked.any (fun l => a.iidm.getIid l == a.iidm.getIid other) then sv
+        else { sv with linked := sv.linked ++ [other] }
+      else sv) = sv.objList := by
+    intro sv
+    split
+    · split <;> rfl
+    · rfl
+  have : (a.addLinked svc other).objList = a.objList := by
+    simp only [Accessory.addLinked, Accessory.objList, List.flatMap_map]
+    congr 1
+    funext sv
+    exact hf sv
+  simp only [Accessory.skel, this]
+  rfl
+
 theorem Accessory.skel_read (a : Accessory V P) (iid : Nat) (g : Option V) : (a.read iid g).2.skel = a.skel := by
   unfold Accessory.read
   split
@@ -358,6 +376,7 @@ theorem sameSkel_step11 (s : Db V P) (hs : s.Good) (op : Op11 V P) : SameSkel s 
   | setGetter o b => exact sameSkel_modChar s o _ (fun c => Char.obj_setGetter c b)
   | setAvailable aid b => exact sameSkel_modAcc s aid _ (fun _ => rfl)
   | setPrimary aid typ => exact sameSkel_modAcc s aid _ (fun a => Accessory.skel_setPrimary a typ)
+  | addLinked aid svc other => exact sameSkel_modAcc s aid _ (fun a => Accessory.skel_addLinked a svc other)
   | readAll incl g =>
     have := sameSkel_renderCached s incl g
     simp only [Db.step11]
